@@ -53,6 +53,18 @@ Theorem C13_cross_join_columns : forall l r, wf_table l -> wf_table r ->
     Forall (fun x => row_fields x = names_of s /\ length (row_values x) = length (names_of s)) rows.
 Proof. exact cross_join_columns. Qed.
 
+(* the rows agree with the declared schema also for tables with DUPLICATE column names on a side (the
+   code then selects columns by bound-field identity): no distinctness hypothesis here *)
+Theorem C13_rows_match_schema : forall how_str h on l r,
+  lookup_how (normalise_how how_str) join_types = Some h -> h <> CROSS_JOIN ->
+  forallb (fun c => name_mem c (names_of (t_schema l))) on
+  && forallb (fun c => name_mem c (names_of (t_schema r))) on = true ->
+  Forall (fun x => length (row_values x) = length (t_schema l)) (t_rows l) ->
+  Forall (fun x => length (row_values x) = length (t_schema r)) (t_rows r) ->
+  exists s rows, df_join l r (OnList on) how_str = Ok (s, rows) /\
+    Forall (fun x => row_fields x = names_of s /\ length (row_values x) = length (names_of s)) rows.
+Proof. exact df_join_rows_match_schema. Qed.
+
 (* ---- join_partition_indep: the result depends only on the concatenation of each side's partitions *)
 Theorem C13_join_partition_indep : forall ls rs Lp Lp' Rp Rp' on how_str,
   concat Lp = concat Lp' -> concat Rp = concat Rp' ->
@@ -80,6 +92,25 @@ Theorem C13_join_types_resolve : forall k h,
 Proof. exact join_types_resolve. Qed.
 Theorem C13_every_how_has_rdd_join : forall h, exists m, rdd_method h = Some m.
 Proof. exact rdd_method_exists. Qed.
+
+(* ---- errors are values: what DataFrame.join raises outside the property's preconditions *)
+Theorem C13_unshared_on_raises : forall how_str h on l r,
+  lookup_how (normalise_how how_str) join_types = Some h -> h <> CROSS_JOIN ->
+  forallb (fun c => name_mem c (names_of (t_schema l))) on
+  && forallb (fun c => name_mem c (names_of (t_schema r))) on = false ->
+  df_join l r (OnList on) how_str = Err StopIteration.
+Proof. exact df_join_unshared. Qed.
+Theorem C13_invalid_how_raises : forall how_str on l r,
+  lookup_how (normalise_how how_str) join_types = None -> df_join l r on how_str = Err IllegalArgumentException.
+Proof. exact df_join_invalid_how. Qed.
+Theorem C13_cross_with_on_raises : forall how_str cs l r,
+  lookup_how (normalise_how how_str) join_types = Some CROSS_JOIN ->
+  df_join l r (OnList cs) how_str = Err IllegalArgumentException.
+Proof. exact df_join_cross_with_on. Qed.
+Theorem C13_missing_on_raises : forall how_str h l r,
+  lookup_how (normalise_how how_str) join_types = Some h -> h <> CROSS_JOIN ->
+  df_join l r OnNone how_str = Err IllegalArgumentException.
+Proof. exact df_join_missing_on. Qed.
 
 (* ---- sanity / non-vacuity: the doctest tables of DataFrame.join (left ids 2,4; right ids 1,2) *)
 Definition s_test_value : name := [116;101;115;116;95;118;97;108;117;101]%N.
@@ -135,6 +166,18 @@ Proof. vm_compute. reflexivity. Qed.
 Example semi_declares_left_columns_only :
   match df_join doc_left doc_right (OnList [s_id]) (how_name LEFT_SEMI_JOIN) with
   | Ok (s, rows) => names_of s = [s_id; s_test_value; s_side] /\ length rows = 1%nat
+  | Err _ => False
+  end.
+Proof. vm_compute. split; reflexivity. Qed.
+
+(* the hypothesis "non-null keys" of C13_join_rows cannot be dropped: the keyed RDD join compares key
+   tuples with Python ==, so two null keys match (SQL: they never do).  Outside the property's
+   quantifier ("with non-null keys"); replayed on the implementation, see design.d/C13.md. *)
+Example null_keys_match_each_other :
+  let t (b : N) (n : name) : table := ([mkField b s_id 0 true; mkField (b + 1) n 1 true], [[([s_id; n], [CNull; CStr n])]]) in
+  let l := t 1%N s_left in let r := t 3%N s_right in
+  match df_join l r (OnList [s_id]) (how_name INNER_JOIN) with
+  | Ok (_, rows) => length rows = 1%nat /\ nested_loop INNER_JOIN [s_id] (t_schema l) (t_schema r) (t_rows l) (t_rows r) = []
   | Err _ => False
   end.
 Proof. vm_compute. split; reflexivity. Qed.
